@@ -52,13 +52,16 @@ func FBP(reftree *tree.Tree, boottrees <-chan tree.Trees, cpus int, sup *Support
 		wg.Add(1)
 		go func(cpu int) {
 			defer wg.Done()
+			defer verifGate("fbp.done", cpu, -1)
 			var inerr error
 			for treeV := range boottrees {
+				verifGate("fbp.recv", cpu, treeV.Id)
 				edgeIndex := tree.NewEdgeIndex(uint64(len(edges)*2), 0.75)
 				if sup.Canceled() {
 					break
 				}
 				if treeV.Err != nil {
+					verifGate("fbp.err", cpu, treeV.Id)
 					seterr(treeV.Err)
 					return
 				} else {
@@ -72,6 +75,7 @@ func FBP(reftree *tree.Tree, boottrees <-chan tree.Trees, cpus int, sup *Support
 					}
 					atomic.AddInt32(&ntrees, 1)
 					edges2 := treeV.Tree.Edges()
+					verifGate("fbp.mid1", cpu, treeV.Id)
 					for i, e2 := range edges2 {
 						if !e2.Right().Tip() {
 							if inerr = edgeIndex.PutEdgeValue(e2, i, e2.Length()); inerr != nil {
@@ -80,6 +84,7 @@ func FBP(reftree *tree.Tree, boottrees <-chan tree.Trees, cpus int, sup *Support
 							}
 						}
 					}
+					verifGate("fbp.mid2", cpu, treeV.Id)
 					for i, e := range edges {
 						_, ok := edgeIndex.Value(e)
 						if ok {
@@ -87,6 +92,7 @@ func FBP(reftree *tree.Tree, boottrees <-chan tree.Trees, cpus int, sup *Support
 						}
 					}
 				}
+				verifGate("fbp.send", cpu, treeV.Id)
 				sup.IncrementProgress()
 			}
 		}(cpu)
